@@ -433,7 +433,8 @@ fn gen_config(seed: u64, work: &PathBuf, directed: u32) -> Config {
     let plugins = Value::Array(pj);
     let mut cfg = Config { seed, chars, infos, unks, provs, words, char_def, unk_def, plugins, lex, matrix, dict: None, load_error: None };
     // ---- load through the public API
-    let dir = work.join("c13res");
+    // one directory per process: quick and thorough runs may overlap
+    let dir = work.join(format!("c13res-{}", std::process::id()));
     std::fs::create_dir_all(&dir).unwrap();
     std::fs::write(dir.join("char.def"), &cfg.char_def).unwrap();
     std::fs::write(dir.join("unk.def"), &cfg.unk_def).unwrap();
@@ -954,5 +955,6 @@ pub fn run(args: &Args) {
             emit(&mut sink, out.desc.clone(), json!({"directed": 0, "call_seed": cs}), out);
         }
     }
+    let _ = std::fs::remove_dir_all(args.work.join(format!("c13res-{}", std::process::id())));
     sink.finish();
 }
